@@ -1,0 +1,38 @@
+//go:build verif
+
+package timex
+
+import (
+	"sync/atomic"
+	"time"
+)
+
+// Verification-only virtual clock (build tag verif).
+// When installed, Now/Since read the virtual time instead of the wall clock.
+var (
+	verifClockOn atomic.Bool
+	verifClockNs atomic.Int64
+)
+
+func verifNow() (time.Duration, bool) {
+	if verifClockOn.Load() {
+		return time.Duration(verifClockNs.Load()), true
+	}
+	return 0, false
+}
+
+// VerifSetNow installs the virtual clock and sets it to d.
+func VerifSetNow(d time.Duration) {
+	verifClockNs.Store(int64(d))
+	verifClockOn.Store(true)
+}
+
+// VerifAdvance moves the virtual clock forward by d and returns the new time.
+func VerifAdvance(d time.Duration) time.Duration {
+	return time.Duration(verifClockNs.Add(int64(d)))
+}
+
+// VerifClockOff uninstalls the virtual clock.
+func VerifClockOff() {
+	verifClockOn.Store(false)
+}
